@@ -63,7 +63,7 @@ def order(ctx):
         for f in P.fns.values():
             for c in f.calls():
                 full = (c['callee'] or {}).get('rfull') or ''
-                if re.match(r'^std::collections::HashMap::<grammar::ItemPath, semantic::types::ItemDefinition>::(insert|remove|clear|retain|drain|entry|extend|remove_entry|try_insert)$', full):
+                if re.match(REGISTRY_MAP + r'(insert|remove|clear|retain|drain|entry|extend|remove_entry|try_insert|pop_first|pop_last|append)$', full):
                     mutators.add(f.id)
         path = None
         for m in sorted(mutators):
@@ -443,7 +443,7 @@ def binding(ctx):
     if gm:
         ex = gm[0].exits()
         e = [x['expr'] for x in ex if x['kind'] == 'passthrough']
-        okm = len(e) == 1 and is_call(e[0], 'HashMap::<K, V, S, A>::get') and find_calls(e[0], 'ItemPath::parent')
+        okm = len(e) == 1 and e[0][0] == 'call' and re.search(MAPM('get'), e[0][1]) and find_calls(e[0], 'ItemPath::parent')
     ctx.ob(['C11', 'C19'], 'R-EXPR', 'C11-D1|owning-module', bool(okm), 'the module of an item is modules[path.parent()]', loc(gm[0].span) if gm else '')
     # D2: backend never resolves names again
     be = [f.id for f in P.fns.values() if f.id.startswith('backends::')]
@@ -552,7 +552,7 @@ def confinement(ctx):
     for f in res:
         for c in f.calls():
             full = (c['callee'] or {}).get('rfull') or ''
-            if re.match(r'^std::collections::HashMap::<grammar::ItemPath, semantic::types::ItemDefinition>::', full):
+            if re.match(REGISTRY_MAP, full):
                 n += 1
                 if not re.search(r'::(contains_key|get)$', c['path']):
                     bad.append((cid(f.id), short(c['path'])))
@@ -572,7 +572,7 @@ def confinement(ctx):
                 continue
             for c in g.calls():
                 full = (c['callee'] or {}).get('rfull') or ''
-                if re.match(r'^std::collections::HashMap::<grammar::ItemPath, semantic::types::ItemDefinition>::', full) and not re.search(r'::(contains_key|get)$', c['path']) and x.startswith('backends::'):
+                if re.match(REGISTRY_MAP, full) and not re.search(r'::(contains_key|get)$', c['path']) and x.startswith('backends::'):
                     bad.append((x, full))
         ctx.ob(['C19'], 'R-ORDER', 'C19-D4|backend-registry-by-key', not bad, 'the backend reads registry entries by path only')
     else:
@@ -589,7 +589,7 @@ def registration(ctx):
         return
     ai, am = ai[0], am[0]
     where = loc(ai.span)
-    ins = [c for c in ai.calls(lambda r: r['path'] and r['path'].endswith('HashSet::<T, S, A>::insert'))]
+    ins = [c for c in ai.calls(lambda r: r['path'] and re.search(SETM('insert'), r['path']))]
     add = [c for c in ai.calls(lambda r: r['path'] and r['path'].endswith('TypeRegistry::add'))]
     oks = [x for x in ai.exits() if x['kind'] == 'ok']
     ok = len(ins) == 1 and len(add) == 1 and len(oks) == 1
@@ -597,7 +597,7 @@ def registration(ctx):
         ok = unreachable_without(ai, oks[0]['block'], {ins[0]['block']}) and unreachable_without(ai, oks[0]['block'], {add[0]['block']})
         ie = ai.expr_of_call(ins[0]['term'])
         # set belongs to modules[parent(path)] and the inserted key is the item's own path
-        okp = bool(find_calls(ie[2][0], 'HashMap::<K, V, S, A>::get_mut')) and bool(find_calls(ie[2][0], 'ItemPath::parent')) and \
+        okp = any(re.search(MAPM('get_mut'), c_[1]) for c_ in calls_in(ie[2][0])) and bool(find_calls(ie[2][0], 'ItemPath::parent')) and \
             any(isinstance(x, tuple) and x[0] == 'field' and x[2] == 'definition_paths' for x in walk(ie[2][0]))
         key = strip(ie[2][1])
         okk = key[0] == 'field' and key[2] == 'path' and strip(key[1])[0] == 'arg'
@@ -609,7 +609,7 @@ def registration(ctx):
     # TypeRegistry::add: key = item's own path
     ta = [f for f in P.fns.values() if f.id.endswith('TypeRegistry::add')]
     if ta:
-        ic = [c for c in ta[0].calls(lambda r: r['path'] and r['path'].endswith('HashMap::<K, V, S, A>::insert'))]
+        ic = [c for c in ta[0].calls(lambda r: r['path'] and re.search(MAPM('insert'), r['path']))]
         okt = False
         if len(ic) == 1:
             e = ta[0].expr_of_call(ic[0]['term'])
@@ -644,7 +644,7 @@ def registration(ctx):
     # Module::new: impls collected into a map keyed by type path
     mn = [f for f in P.fns.values() if f.id.endswith('module::Module::new')]
     if mn:
-        cs = [c for c in mn[0].calls(lambda r: r['gpath'] and r['gpath'].endswith('Iterator::collect') and 'HashMap<grammar::ItemPath, grammar::FunctionBlock>' in ' '.join(r['callee'].get('gargs', [])))]
+        cs = [c for c in mn[0].calls(lambda r: r['gpath'] and r['gpath'].endswith('Iterator::collect') and re.search(r'(?:HashMap|BTreeMap)<grammar::ItemPath, grammar::FunctionBlock', ' '.join(r['callee'].get('gargs', []))))]
         ctx.ob(['C14', 'C05'], 'R-ERR', 'C14-D3|impl-blocks-not-merged', not cs,
                'impl blocks must not be collected into a map keyed by type path without noticing duplicates; ' +
                ('ok' if not cs else 'Module::new collects them with collect::<HashMap<_,_>>(): a second `impl T` block silently replaces the first, an impl of an unknown type is never looked at'),
@@ -676,7 +676,7 @@ def registration(ctx):
                     oks = True
     ctx.ob(['C14', 'C19', 'C11'], 'R-EXPR', 'AM|item-path', oks, 'an item\'s path is its module\'s path joined with its name')
     # the module itself is inserted under its own path
-    mi = [c for c in am.calls(lambda r: r['path'] and r['path'].endswith('HashMap::<K, V, S, A>::insert'))]
+    mi = [c for c in am.calls(lambda r: r['path'] and re.search(MAPM('insert'), r['path']))]
     okm = False
     if len(mi) == 1:
         e = am.expr_of_call(mi[0]['term'])
